@@ -25,5 +25,8 @@ Canonical == /\ v.url = "https-name" /\ v.tls = "on" /\ v.crypto = "fs" /\ v.sql
 Emit == /\ (Decided /\ act = NoAct) => PrintT(ToJson([t |-> "start", v |-> v, accepted |-> Accepted, by |-> by, why |-> why,
                                                        insecure |-> InsecureSetting(v), unusable |-> UrlUnusable(v.url)]))
         /\ (act # NoAct /\ Canonical) => PrintT(ToJson([t |-> "act", strict |-> v.strict, dummy |-> v.dummy, act |-> act, verdict |-> verdict,
-                                                         plain |-> IF act.kind = "outbound" THEN PlainHttpSent(v, act.arg, act.entry) ELSE FALSE]))
+                                                         plain |-> IF act.kind = "outbound" THEN PlainHttpSent(v, act.arg, act.entry) ELSE FALSE,
+                                                         \* the same action on a client constructed directly with the strict flag
+                                                         standalone |-> IF act.kind = "outbound" THEN OutboundVerdictWith(v, act.arg, act.entry, TRUE)
+                                                                        ELSE verdict]))
 =============================================================================
